@@ -47,18 +47,20 @@ FORMS = ['with', 'decorator']
 # the third session kind: a @db_session GENERATOR function.  'exhaust' runs it to its end (the script's own end applies:
 # StopIteration commits, rollback(), an exception raised in the body); the others leave it suspended at its last yield
 # (everything committed, as Pony demands) and end it from outside
+AUX_SCRIPTS = {'read': [['get', 1], ['get', 2]],
+               'write': [['get', 1], ['get', 2], ['assign', 1, 77], ['create', 9, 5]]}
 GEN_ENDS = ['exhaust', 'close', 'break', 'throw_exc', 'throw_exit', 'throw_kbd']
 
 
 def session_variants():
-    """(form, gen, end) combinations"""
+    """(form, gen, end) combinations; 'commit_fault' = the session is left normally and its final COMMIT fails"""
     out = []
     for form in FORMS:
-        for end in ENDS:
+        for end in ENDS + ['commit_fault']:
             out.append((form, None, end))
     for gen in GEN_ENDS:
         if gen == 'exhaust':
-            for end in ENDS:
+            for end in ENDS + ['commit_fault']:
                 out.append(('generator', gen, end))
         else:
             out.append(('generator', gen, 'rollback'))
@@ -70,14 +72,14 @@ def session_variants():
 # ------------------------------------------------------------------------------------------------
 
 GRID_DIAGRAMS_QUICK = [
-    {},
+    {'json': True},
     {'ppk': 'auto', 'cpk': 'auto', 'ref': 'optional', 'unique': True, 'o2o': True},
     {'ppk': 'str', 'cpk': 'composite', 'tpk': 'str', 'inherit': True, 'lazy_set': True,
      'extra': [['bool', 0, 0], ['float', 1, 0]]},
 ]
 GRID_DIAGRAMS_THOROUGH = GRID_DIAGRAMS_QUICK + [
     {'ref': 'optional'},
-    {'inherit': True, 'o2o': True},
+    {'inherit': True, 'o2o': True, 'json': True},
     {'cpk': 'composite', 'unique': True, 'o2o': True, 'ref': 'optional'},
     {'ppk': 'auto', 'tpk': 'str', 'lazy_set': True, 'extra': [['int', 0, 1], ['str', 1, 0]]},
     {'ppk': 'str', 'cpk': 'auto', 'inherit': True, 'unique': True, 'ref': 'optional'},
@@ -103,7 +105,10 @@ def grid_data(d):
     d = M.norm_diagram(d)
 
     def prow(i, title, note, blob, rank):
-        return {'id': pkof(d, 'P', i), 'title': title, 'note': note, 'blob': blob, 'rank': rank}
+        r = {'id': pkof(d, 'P', i), 'title': title, 'note': note, 'blob': blob, 'rank': rank}
+        if d['json']:
+            r['meta'] = {'m': i, 'seen': [i]}
+        return r
 
     def crow(i, name, nick, bio, num, parent, tags, cls=None):
         r = {'name': name, 'nick': nick, 'bio': bio, 'num': num,
@@ -115,6 +120,9 @@ def grid_data(d):
             r['id'] = pk
         if d['unique']:
             r['code'] = 100 + i if i != 2 else None
+        if d['json']:
+            r['doc'] = {'n': i, 'tags': ['a%d' % i], 'k': 'v'}
+            r['arr'] = [i, i + 1]
         for j, (t, req, lazy) in enumerate(d['extra']):
             r['x%d' % j] = extra_value(t, i + j) if (req or i % 2) else None
             if r['x%d' % j] is None and t == 'str':
@@ -197,6 +205,9 @@ def presets(d):
            ['add', C(1), 'tags', T(3)], ['assign', P(1), 'title', 'p changed'], ['assign', T(2), 'label', 'blue2']]
     if d['unique']:
         mod.append(['assign', C(1), 'code', 555])
+    if d['json']:
+        mod += [['mutate', C(1), 'doc', ['setitem', 'n', 100]], ['mutate', C(1), 'arr', ['append', 9]],
+                ['assign', P(1), 'meta', {'m': 99}]]
     out.append(('modified', mod))
     out.append(('modified_flushed', mod + [['flush']]))
     out.append(('committed_then_modified', [g(C(1)), g(P(1)), ['assign', C(1), 'name', 'v1'], ['assign', P(1), 'rank', 41],
@@ -205,6 +216,13 @@ def presets(d):
                                         ['add', P(3), 'kids', C(1)], ['add', C(2), 'tags', T(3)]]))
     out.append(('deleted', [g(P(1)), g(T(1)), g(T(3)), g(C(2)), ['delete', C(2)], ['delete', T(3)]]))
     out.append(('deleted_flushed', [g(P(1)), g(T(1)), g(C(2)), ['delete', C(2)], ['flush']]))
+    if d['json']:
+        out.append(('json_held', [g(P(1)), g(C(1)), g(C(2)), ['read', C(1), 'doc'], ['read', C(1), 'arr'], ['read', P(1), 'meta']]))
+        out.append(('json_mutated', [g(P(1)), g(C(1)), ['mutate', C(1), 'doc', ['nested_append', 'tags', 'z']],
+                                     ['mutate', C(1), 'doc', ['delitem', 'k']], ['mutate', C(1), 'arr', ['setidx', 0, 42]],
+                                     ['mutate', P(1), 'meta', ['update', {'m': 7}]]]))
+        out.append(('json_mutated_flushed', [g(C(1)), ['mutate', C(1), 'doc', ['setitem', 'n', 5]],
+                                             ['mutate', C(1), 'arr', ['extend', [7, 8]]], ['flush']]))
     if d['o2o']:
         out.append(('one_to_one', [g(C(1)), ['read', C(1), 'badge'], g(C(2)), ['read', C(2), 'badge'],
                                    ['get', 'O', 1], ['ref', ['O', 1], 'owner']]))
@@ -218,7 +236,13 @@ def presets(d):
 # ------------------------------------------------------------------------------------------------
 
 def fresh_value(a, salt):
-    return {'int': 1000 + salt, 'str': 'w%d' % salt, 'bool': bool(salt % 2), 'float': 0.25 * salt}[a['type']]
+    return {'int': 1000 + salt, 'str': 'w%d' % salt, 'bool': bool(salt % 2), 'float': 0.25 * salt,
+            'json': {'n': salt, 'tags': ['f']}, 'intarray': [salt, 1]}[a['type']]
+
+
+JSON_MUTS = [['setitem', 'x', 1], ['setitem', 'n', -1], ['delitem', 'n'], ['nested_append', 'tags', 'zz'],
+             ['nested_append', 'seen', 0], ['update', {'u': 2}], ['pop', 'k'], ['pop', 'm'], ['clear']]
+ARRAY_MUTS = [['append', 77], ['extend', [5, 6]], ['setidx', 0, -3], ['pop_last']]
 
 
 def all_ops(model, d, level='full'):
@@ -270,6 +294,16 @@ def all_ops(model, d, level='full'):
                     setkw[n] = v
                 if not a['required'] and a['type'] != 'str':
                     plain.append(['assign', key, n, None])
+                if a['type'] in M.JSON_TYPES:
+                    # in-place changes of the Json / array value: through the attribute, and through the container the
+                    # in-session script kept
+                    cur = (model.row(h) or {}).get(n)
+                    for mut in (JSON_MUTS if a['type'] == 'json' else ARRAY_MUTS):
+                        if cur is None or not M.mut_fits(cur, mut, a['type']):
+                            continue
+                        plain.append(['mutate', key, n, mut, 'attr'])
+                        if n in o['held']:
+                            plain.append(['mutate', key, n, mut, 'held'])
             elif a['kind'] in ('ref', 'o2orev'):
                 plain.append(['read', key, n])
                 t_attrs = meta[a['type']]
@@ -300,6 +334,9 @@ def all_ops(model, d, level='full'):
             plain.append(['set', key, setkw])
             one = sorted(setkw)[0]
             plain.append(['set', key, {one: setkw[one]}])
+    for pk in sorted(model.aux):      # objects of the second database
+        plain += [['x_read', pk], ['x_pk', pk], ['x_assign', pk, 555], ['x_set', pk, 556], ['x_delete', pk],
+                  ['x_load', pk], ['x_flush', pk]]
     glob = [['g_commit'], ['g_flush'], ['g_rollback']] + [['g_select', e] for e in sorted(meta)]
     ops = list(plain) + glob
     ops += [['new', op] for op in plain + newonly]
@@ -327,6 +364,12 @@ def op_classes(op, case, status):
     cl = ['op:' + k, 'end:' + case['end'], 'form:' + case.get('form', 'with')]
     if case.get('gen'):
         cl.append('gen:' + case['gen'])
+    if case.get('aux'):
+        cl.append('two-databases')
+    if case.get('fault'):
+        cl.append('fault:' + case['fault'])
+    if k == 'mutate':
+        cl.append('mutate-via:' + (op[1] if op[0] == 'new' else op)[4])
     if status:
         cl.append('status:' + status)
     if case['strict']:
@@ -373,7 +416,7 @@ def run_case(env, case, on_op=None, on_fail=None):
             return msg, info
     # every attribute of every leftover object again: refused operations must not have changed anything readable
     for op in M.sweep_ops(p.model):
-        if M.hk(op[1]) not in p.objs:
+        if not op[0].startswith('x_') and M.hk(op[1]) not in p.objs:
             continue
         out = M.exec_op(env, p.objs, op)
         msg = oracle.judge(op, out)
@@ -394,7 +437,9 @@ def run_case(env, case, on_op=None, on_fail=None):
 def describe(case):
     return ('diagram=%s prep=%s end=%s form=%s strict=%s' %
             (json.dumps(case['diagram'], sort_keys=True), json.dumps(case['prep']), case['end'],
-             case.get('form', 'with') + ('/' + case['gen'] if case.get('gen') else ''), case['strict']))
+             case.get('form', 'with') + ('/' + case['gen'] if case.get('gen') else ''), case['strict'])
+            + ((' fault=%s' % case['fault']) if case.get('fault') else '')
+            + ((' second database %s: %s' % (case['aux']['order'], json.dumps(case['aux']['script']))) if case.get('aux') else ''))
 
 
 def full_message(case, msg):
@@ -493,13 +538,36 @@ def grid_scenarios(tier):
                     case = {'diagram': d, 'data': data, 'prep': prep, 'end': end, 'form': form, 'strict': strict}
                     if gen:
                         case['gen'] = gen
+                    if end == 'commit_fault':
+                        case['fault'] = 'main'
                     out.append((status, case))
+        # sessions that span two databases: the second one is touched before or after the first, read or written,
+        # and the final commit may fail on either of them
+        two = [x for x in presets(d) if x[0] in (('loaded', 'modified', 'created_linked') if tier == 'quick' else
+                                                 ('loaded', 'modified', 'created_linked', 'deleted', 'coll_loaded', 'stub'))]
+        if tier == 'quick' and di > 0:
+            two = []
+        for status, prep in two:
+            for order in ('first', 'last'):
+                for akind, ascript in sorted(AUX_SCRIPTS.items()):
+                    for end, fault in [('commit', None), ('rollback', None), ('exception', None),
+                                       ('commit_fault', 'main'), ('commit_fault', 'aux')]:
+                        for strict in (False, True):
+                            for form in FORMS:
+                                if tier == 'quick' and form == 'decorator' and end != 'commit_fault':
+                                    continue
+                                case = {'diagram': d, 'data': data, 'prep': prep, 'end': end, 'form': form, 'strict': strict,
+                                        'aux': {'order': order, 'script': ascript}}
+                                if fault:
+                                    case['fault'] = fault
+                                out.append((status + '+db2_' + akind, case))
     return out
 
 
 def evaluate(ctx, env, case, status, shrink_ops):
     """run a case, account for every operation, report violations (open known findings are counted and skipped)"""
-    sk = chash([case['diagram'], case['data'], case['prep'], case['end'], case.get('form'), case.get('gen'), case['strict']])
+    sk = chash([case['diagram'], case['data'], case['prep'], case['end'], case.get('form'), case.get('gen'), case['strict'],
+                case.get('aux'), case.get('fault')])
 
     def on_op(i, op, out, msg):
         sample = None
@@ -565,6 +633,8 @@ def run_grid(ctx, pool):
         for act in M.effective_script(base)[0]:
             if not model.apply(act):
                 raise M.HarnessError('grid script step %r invalid (%s)' % (act, status))
+        for act in (base.get('aux') or {}).get('script', []):
+            model.apply_aux(act)
         ops = order_ops(all_ops(model, base['diagram']), ctx.seed, k)
         evaluate(ctx, env, dict(base, ops=ops), status, shrink_ops=True)
 
@@ -585,14 +655,14 @@ def case_strategy(tier):
              'tpk': draw(st.sampled_from(['int', 'str'])),
              'ref': draw(st.sampled_from(['required', 'optional'])),
              'unique': draw(st.booleans()), 'inherit': draw(st.booleans()), 'o2o': draw(st.booleans()),
-             'lazy_set': draw(st.booleans()),
+             'lazy_set': draw(st.booleans()), 'json': draw(st.booleans()),
              'extra': draw(st.lists(st.tuples(st.sampled_from(['int', 'str', 'bool', 'float']), st.integers(0, 1),
                                               st.integers(0, 1)).map(list), max_size=2))}
         return M.norm_diagram(d)
 
     def scalar_value(draw, a, allow_none=True):
         t = a['type']
-        if not a['required'] and t != 'str' and allow_none and draw(st.integers(0, 3)) == 0:
+        if not a['required'] and t != 'str' and t not in M.JSON_TYPES and allow_none and draw(st.integers(0, 3)) == 0:
             return None
         if t == 'int':
             return draw(st.integers(-5, 50))
@@ -602,6 +672,11 @@ def case_strategy(tier):
             return draw(st.one_of(st.just(''), words))
         if t == 'bool':
             return draw(st.booleans())
+        if t == 'json':
+            return {'n': draw(st.integers(0, 9)), 'tags': draw(st.lists(st.sampled_from(['a', 'b']), max_size=2)),
+                    'k': draw(st.sampled_from(['v', 'w'])), 'm': 1, 'seen': []}
+        if t == 'intarray':
+            return draw(st.lists(st.integers(0, 9), min_size=1, max_size=3))
         return draw(st.integers(-8, 8)) * 0.5
 
     @st.composite
@@ -726,7 +801,7 @@ def case_strategy(tier):
         # phase 2: modifications
         for _ in range(draw(st.integers(0, 7))):
             kind = draw(st.sampled_from(['assign', 'assign', 'assign_ref', 'create', 'add', 'remove', 'delete', 'flush',
-                                         'commit', 'read', 'get']))
+                                         'commit', 'read', 'get'] + (['mutate', 'mutate'] if d['json'] else [])))
             if kind in ('flush', 'commit'):
                 try_add([kind])
             elif kind == 'get':
@@ -777,6 +852,12 @@ def case_strategy(tier):
                         nfresh[0] += 1
                         v = 800 + nfresh[0]
                     try_add(['assign', M.jk(h), a['name'], v])
+            elif kind == 'mutate':
+                c = pick(pairs(('scalar',), lambda h, a: a['type'] in M.JSON_TYPES))
+                if c:
+                    h, a = c
+                    mut = draw(st.sampled_from(JSON_MUTS if a['type'] == 'json' else ARRAY_MUTS))
+                    try_add(['mutate', M.jk(h), a['name'], mut])
             elif kind == 'assign_ref':
                 c = pick(pairs(('ref',), lambda h, a: a.get('reverse') != 'badge'))
                 if c:
@@ -792,7 +873,7 @@ def case_strategy(tier):
                 if c:
                     h, a = c
                     try_add([kind, M.jk(h), a['name'], M.jk(pick(keys_of(a['type'])))])
-        end = draw(st.sampled_from(ENDS))
+        end = draw(st.sampled_from(ENDS + ['commit_fault']))
         form = draw(st.sampled_from(FORMS + ['generator']))
         strict = draw(st.booleans())
         case = {'diagram': d, 'data': data, 'prep': prep, 'end': end, 'form': form, 'strict': strict}
@@ -800,6 +881,20 @@ def case_strategy(tier):
             case['gen'] = draw(st.sampled_from(GEN_ENDS))
             if case['gen'] != 'exhaust':
                 case['end'] = 'rollback'
+        elif draw(st.booleans()):
+            # the session also works with a second database
+            ascript = []
+            for _ in range(draw(st.integers(1, 4))):
+                act = draw(st.sampled_from([['get', 1], ['get', 2], ['get', 3], ['assign', 1, 71], ['assign', 2, 72],
+                                            ['create', 8, 4], ['create', 9, 5]]))
+                m2 = copy.deepcopy(model)
+                if m2.apply_aux(act):
+                    model.apply_aux(act)
+                    ascript.append(act)
+            if ascript:
+                case['aux'] = {'order': draw(st.sampled_from(['first', 'last'])), 'script': ascript}
+        if case['end'] == 'commit_fault':
+            case['fault'] = draw(st.sampled_from(['main', 'aux'])) if case.get('aux') else 'main'
         pool_ops = all_ops(model, d)
         if not pool_ops:
             ops = []
